@@ -41,6 +41,9 @@ fn field_name_c15(rng: &mut Rng) -> String {
         "await", "dyn", "struct", "enum", "trait", "where", "while", "for", "if", "else", "let", "mut", "pub", "static", "const", "true", "false", "box", "try",
         // spellings that only become a Rust keyword once they are converted to snake_case
         "Type", "Match", "Loop", "Ref", "Box", "In", "Final", "Move", "Fn", "Yield", "Try", "Async", "Abstract", "Override", "Where", "Use", "Mod", "Impl", "Dyn",
+        // names that generated code (codegen output and the proxy / derive macros it relies on) may use for its own locals
+        "method", "parameters", "call", "params", "reply", "result", "connection", "conn", "args", "out", "error", "more", "oneway", "upgrade", "socket", "stream",
+        "chain", "send", "res", "err", "item", "ok", "e", "s", "f", "this", "continues", "interface", "fds", "buf", "serializer", "deserializer", "map", "seq", "key",
     ];
     let mut s = rng.pick(POOL).to_string();
     if s == "self_" {
